@@ -1623,6 +1623,9 @@ impl ContinuityStore {
                 Err(_) => break,
             }
 
+            if tail_bytes >= MAX_TAIL_BYTES {
+                break;
+            }
             tail_bytes = (tail_bytes * 2).min(MAX_TAIL_BYTES);
         }
 
@@ -1795,6 +1798,7 @@ impl ContinuityStore {
 
         let mut tail_bytes = INITIAL_TAIL_BYTES;
         let mut scanned_sidecar = false;
+        let mut tail_complete = false;
         while tail_bytes <= MAX_TAIL_BYTES {
             match self
                 .stream_cache
@@ -1849,7 +1853,11 @@ impl ContinuityStore {
                         }
                     }
 
-                    if tail.complete || by_key.len() >= MAX_KEYS {
+                    if tail.complete {
+                        tail_complete = true;
+                        break;
+                    }
+                    if by_key.len() >= MAX_KEYS {
                         break;
                     }
                 }
@@ -1857,10 +1865,13 @@ impl ContinuityStore {
                 Err(_) => break,
             }
 
+            if tail_bytes >= MAX_TAIL_BYTES {
+                break;
+            }
             tail_bytes = (tail_bytes * 2).min(MAX_TAIL_BYTES);
         }
 
-        if !scanned_sidecar {
+        if !scanned_sidecar || (!tail_complete && by_key.len() < MAX_KEYS) {
             let events = self
                 .replay_events(thread_id)
                 .map_err(|err| format!("continuity replay failed: {err}"))?;
@@ -2007,6 +2018,9 @@ impl ContinuityStore {
                 }
                 Ok(None) => break,
                 Err(_) => break,
+            }
+            if tail_bytes >= MAX_TAIL_BYTES {
+                break;
             }
             tail_bytes = (tail_bytes * 2).min(MAX_TAIL_BYTES);
         }
@@ -2177,6 +2191,9 @@ impl ContinuityStore {
                 Err(_) => break,
             }
 
+            if tail_bytes >= MAX_TAIL_BYTES {
+                break;
+            }
             tail_bytes = (tail_bytes * 2).min(MAX_TAIL_BYTES);
         }
 
